@@ -154,6 +154,29 @@ func TestSweep(t *testing.T) {
 	rec.Bulk("dfsHistories", total, nontriv)
 	rec.Note("dfs_transitions", total)
 	rec.Note("dfs_depth_after_initial_alloc", depth)
+	// one Append between two windows of a parent of 70000..280000 samples: in place with the source
+	// before, overlapping (either direction) and behind the region written, and growing
+	for i, tn := range []string{"int16", "float32", "int64", "NInt16"} {
+		C := 1 + i%3
+		K := (70000 << uint(i%3)) / C
+		for _, b := range []Big{
+			{H: K / 3, S: K/3 - 2, N: K / 2},           // source starts two frames before the region written and runs through it
+			{H: K / 4, S: K/4 - K/8, N: K / 2},         // starts far before it
+			{H: K / 4, S: K / 4, N: K / 2},             // starts exactly at the destination's end
+			{H: K / 4, S: K/4 + 3, N: K / 2},           // starts inside the region written
+			{H: K / 2, S: 0, N: K / 2},                 // ends exactly where the region starts: no overlap
+			{H: K / 2, S: 1, N: K / 2},                 // overlaps by one frame
+			{H: K - 5, S: 0, N: K - 7},                 // does not fit: moves to new storage
+			{H: K / 3, S: K/3 - 1, N: K - K/3 - K/3%7}, // fills the capacity (nearly) to the end
+		} {
+			b.C, b.K = C, K
+			if b.S+b.N > K {
+				b.N = K - b.S
+			}
+			bb := b
+			Oracle.One(t, env, rec, "sweep", &Case{T: tn, MaxViews: 2, Big: &bb})
+		}
+	}
 	rec.Exhaustive("all operation sequences up to depth 3 (quick) / 4 (thorough) after the initial allocation over the alphabet {alloc 3 shapes, every valid Slice and one invalid, AppendSample, Append of every ordered view pair, Write, SetSample first/last}, 1-3 channels, <= 6 live views, 4 initial shapes", true)
 }
 
